@@ -194,6 +194,46 @@ Definition chk_dnsrecv (c : name * N * list (option bytes) * bytes * oclass * (N
   | _ => true
   end.
 
+(* the ingest worker's body: parseRegMessage, then ingestRegistration for every registration it returned.
+   observed: class, announcements to the detector, requests the peer station's API received *)
+Definition worker (cfg : stcfg) (o : storacle) (view : option wrapper) (io : ioracle) : res (N * N) :=
+  regs <- parse_reg_message cfg o view ;;
+  match view with
+  | None => Ok (0, 0)
+  | Some w =>
+      fold_left (fun acc s =>
+                   '(n, sh) <- acc ;;
+                   r <- ingest_registration (ireg_of w cfg s None) io ;;
+                   Ok (match r with IAdded shared _ => (n + 1, if shared then sh + 1 else sh) | _ => (n, sh) end))
+                regs (Ok (0, 0))
+  end.
+Definition chk_worker (c : stcfg * storacle * option wrapper * ioracle * oclass * N * N) : bool :=
+  let '(cfg, o, view, io, oc, ann, shares) := c in
+  let r := worker cfg o view io in
+  class_matches r oc && match r with Ok (n, sh) => (n =? ann) && (sh =? shares) | _ => true end.
+
+(* ingestRegistration on a hand-built registration (any field may be nil) *)
+Definition chk_rawreg (c : ireg * ioracle * oclass * bool) : bool :=
+  let '(r, io, oc, announced) := c in
+  let m := ingest_registration r io in
+  class_matches m oc && match m with Ok (IAdded _ _) => announced | Ok _ => negb announced | _ => true end.
+
+(* dtls.Transport.Connect up to the DNAT: Ok = the DNAT was asked for an entry *)
+Definition chk_dtlsconn (c : bool * pval * oclass) : bool :=
+  let '(is_dtls, p, oc) := c in
+  if is_dtls then class_matches (dtls_connect_params p) oc
+  else match oc with OErr 21 => true | _ => false end.
+
+(* prefix.TryFromID + the calls overridePrefix makes on its result: class, and whether a prefix came back *)
+Definition chk_tryid (c : list Z * Z * oclass * bool) : bool :=
+  let '(ids, id, oc, known) := c in
+  let r := try_from_id ids id in
+  class_matches r oc && match r with Ok k => Bool.eqb k known | _ => true end.
+
+(* the keys of DefaultPrefixes are 0 .. n-1 (hypothesis of wf_rpcfg, re-checked on the dumped table) *)
+Definition ids_contiguous (ids : list Z) : bool :=
+  forallb (fun i => existsb (Z.eqb (Z.of_nat i)) ids) (seq 0 (length ids)).
+
 (* ---------------------------------------------------------------- all entry points in one case type *)
 Inductive anycase :=
   | AParams (c : trk * N * option anyv * oclass * oclass * N)
@@ -206,6 +246,10 @@ Inductive anycase :=
   | AC2sw (c : rpcfg * option wrapper * oclass)
   | AApi (c : bool * rpcfg * list (N * bool * selres) * bool * option N * httpreq * (bool * N * bool * N))
   | ADnsProc (c : rpcfg * list (N * bool * selres) * bool * option wrapper * oclass * bool)
+  | ATryId (c : list Z * Z * oclass * bool)
+  | AWorker (c : stcfg * storacle * option wrapper * ioracle * oclass * N * N)
+  | ARawReg (c : ireg * ioracle * oclass * bool)
+  | ADtlsConn (c : bool * pval * oclass)
   | AMin (c : bytes * bool * oclass * Z)
   | APrefix (c : list pfx * bytes * list (Z * regview) * oclass * Z)
   | AMarkMac (c : Z * Z * Z * Z * bool * option Z * oclass * Z)
@@ -218,6 +262,7 @@ Definition chk (a : anycase) : bool :=
   | AParams c => chk_params c | ADstPort c => chk_dstport c | AStation c => chk_station c
   | ABdReqE c => chk_bdreq_enf c | AApiRec c => chk_api_rec c
   | ANewReg c => chk_newreg c | ABdReq c => chk_bdreq c | AC2sw c => chk_c2sw c | AApi c => chk_api c
+  | ATryId c => chk_tryid c | AWorker c => chk_worker c | ARawReg c => chk_rawreg c | ADtlsConn c => chk_dtlsconn c
   | ADnsProc c => chk_dnsproc c | AMin c => chk_min c | APrefix c => chk_prefix c
   | AMarkMac c => chk_markmac c | AObfs4 c => chk_obfs4 c | ADnsMsg c => chk_dnsmsg c
   | ADnsRecv c => chk_dnsrecv c
